@@ -154,10 +154,17 @@ func init() {
 			// two unbondings of one delegator from one validator in one block are already pending (shared queue record)
 			packed := []world.Op{opDel(0, 0, "aaa", "10"), opDel(1, 1, "aaa", "3"), opBlock(1), opUnd(0, 0, "aaa", "1"), opUnd(0, 0, "aaa", "1"),
 				{K: world.KUndelegateAll, D: 0, V: 0, Denom: "aaa"}, {K: world.KUndelegateAll, D: 1, V: 1, Denom: "aaa"}, opBlock(1)}
+			// after a slash by a fraction that is not a power of 2 or 10 the module's staking delegations are worth a fractional
+			// number of bond tokens (exchange rate != 1): everything the rebalance rounds now rounds for real
+			slashed := []world.Op{opDel(0, 0, "aaa", "10"), opDel(1, 1, "aaa", "3"), opBlock(1), opSlash(0, "0.333333333333333333"), opBlock(1)}
 			mk := func(name string, cfg world.Config, stores []string, budgets []int, depth int) *engine.Scenario {
+				seeds := tierPick(tier, [][]world.Op{seed, packed}, [][]world.Op{seed, nil, packed})
+				if cfg.FullPipeline {
+					seeds = append(seeds, slashed)
+				}
 				return &engine.Scenario{
 					Property: "C17", Name: name, Cfg: cfg, Stores: stores,
-					Seeds: tierPick(tier, [][]world.Op{seed, packed}, [][]world.Op{seed, nil, packed}), ClassNames: classNames, Budgets: budgets, MaxDepth: depth,
+					Seeds: seeds, ClassNames: classNames, Budgets: budgets, MaxDepth: depth,
 					Ops: c17Ops(tier, cfg.FullPipeline), Step: c17Step,
 					// keep exploring after a failed EndBlocker only when it did not fail (a halted chain has no successor)
 					Expand:   func(x *engine.Exec) bool { return !x.Res.Rejected && x.Res.Err == nil },
